@@ -350,6 +350,10 @@ def r4(ctx):
                         incs.append(blk.idx)
         rule.check(bool(incs) and must_pass(b, [bi], via_blocks=incs), "count is incremented before the request is re-inserted", "multi|no-increment",
                    "the packet counter is not incremented when a partial NODES response is stored", loc=b.loc(t.line))
+        # ... and the incremented counter is stored: the accumulator goes back into active_nodes_responses on every path that keeps waiting
+        rule.check(must_pass(b, [bi], via_blocks=[x for x, _ in part_ins]), "the accumulator (with its counter) is stored whenever the request keeps waiting", "multi|counter-not-stored",
+                   "the request is kept waiting for more NODES packets on a path that does not store the accumulator back into active_nodes_responses: the packet "
+                   "counter restarts from zero and neither `count < total` nor MAX_NODES_RESPONSES ever stops the collection", loc=b.loc(t.line))
     for dbi, dt in disc:
         rule.check(must_pass(b, [dbi], via_blocks=[x for x, _ in part_rem]), "discovered only after active_nodes_responses.remove(id)", "multi|partial-kept",
                    "the partial-response entry can survive completion of the request", loc=b.loc(dt.line))
